@@ -201,7 +201,9 @@ def desc(carrier, dtype, m):
             sx.assume(keys[i] != keys[j])
     # names that differ only in case or surrounding blanks are different descriptions
     tricky = ["mW", "MW", " MW", "mW ", "Speed Mode", "speed mode", "Speed  Mode", "0", "1", "ON", "on", "Off"]
-    texts = (tricky + ["state %d" % i for i in range(m)])[:m]
+    # ... mixed with names that share a long prefix
+    texts = [tricky[(i // 4) * 2 + i % 2] if i % 4 < 2 and (i // 4) * 2 + i % 2 < len(tricky) else "state %d" % i
+             for i in range(m)]
 
     def setup(v):
         for k, t in zip(keys, texts):
@@ -355,13 +357,13 @@ def jobs(tier):
         for dtype in (U8, U32, I32) if tier == "quick" else (U8, U16, U32, I32, I16):
             out.append(dict(func="bits_kept", params=dict(carrier=carrier, dtype=dtype), weight=WIDTH[dtype]))
         for dtype in (U8, U16, I32):
-            for m in ((1, 3) if tier == "quick" else (1, 2, 3, 8, 20)):
+            for m in ((1, 4) if tier == "quick" else (1, 2, 3, 4, 8, 20)):
                 out.append(dict(func="desc", params=dict(carrier=carrier, dtype=dtype, m=m), weight=m))
     # the same views over a PDO variable that is not byte aligned (signed types: the most negative value matters)
     for dtype in (I8, I16, I32, U16) if tier == "quick" else (I8, I16, I32, U8, U16, U32):
         for sp in (("slice", "name") if tier == "quick" else ("int", "list", "slice", "slice1", "name")):
             out.append(dict(func="bits", params=dict(carrier="pdou", dtype=dtype, spelling=sp), weight=WIDTH[dtype]))
-        out.append(dict(func="desc", params=dict(carrier="pdou", dtype=dtype, m=3), weight=3))
+        out.append(dict(func="desc", params=dict(carrier="pdou", dtype=dtype, m=4), weight=3))
     out.append(dict(func="phys", params=dict(carrier="pdou", factor=0.5, kind="float", R=31), weight=200,
                     limits=dict(fast_ms=300)))
     out.append(dict(func="phys_samples", params=dict(carrier="pdou", factor=0.1)))
